@@ -2,6 +2,7 @@
 //   h_tb sweep <CLASS> <threads> [dumpfile]   every placement x both sides through probeDTM (both storage back
 //                                             ends), Bellman-equation check with an independent mini rules engine
 //   h_tb solve <CLASS> <threads> <dumpfile>   independent retrograde solution (mini rules engine only), self-checked, written as dump
+//   h_tb bigtt <CLASS> <MB> <seed>            table generated inside a transposition table of <MB> megabytes, hash traffic, all probes vs private table
 //   h_tb abort <CLASS> <seed> <n> <dumpfile>  aborted generations inside a TranspositionTable, then probes vs dump
 //   h_tb scope <seed> <n>                     out-of-scope positions must be "not found"
 //   h_tb query <dumpfile>...                  line server: "<fen>" -> "win N" | "loss N" | "draw" | "unknown"
@@ -445,10 +446,51 @@ static int runSolve(const std::string& cls, int threads, const std::string& dump
     return 0;
 }
 
+struct XRng { uint64_t s; uint64_t next() { s ^= s << 13; s ^= s >> 7; s ^= s << 17; return s * 0x2545F4914F6CDD1Dull; } int below(int n) { return (int)(next() % (uint64_t)n); } };
+
+// ---------------------------------------------------------------------------------------------
+// table inside a large transposition table (byte offsets beyond 2^32), with hash traffic before the comparison
+
+static int runBigTT(const std::string& cls, long long mb, uint64_t seed) {
+    Mat m;
+    if (!parseClass(cls, m)) { fprintf(stderr, "bad class\n"); return 2; }
+    setCrumb("bigtt " + cls + " " + std::to_string(mb) + " MB");
+    VectorStorage vs;
+    TBGenerator<VectorStorage> gen(vs, m.pc);
+    RelaxedShared<S64> noLimit(-1);
+    if (!gen.generate(noLimit, false)) { rep.viol("generate-failed", cls + " VectorStorage"); rep.finish(); return 0; }
+    Dump d1; std::atomic<long long> np(0), nf(0);
+    dumpAll(m, d1, 16, [&](const Position& pos, int& score) { return gen.probeDTM(pos, 0, score); }, np, nf);
+    TranspositionTable tt((U64)mb * 65536);
+    {
+        int s[4]; for (size_t i = 0; i < m.men.size(); i++) s[i] = (int)(i * 9 + 1);
+        s[0] = 0; s[m.bkIdx] = 63;
+        Position root; buildPosition(m, s, true, root);
+        RelaxedShared<S64> nl(-1);
+        if (!tt.updateTB(root, nl)) { rep.viol("updateTB-failed", cls + " in a " + std::to_string(mb) + " MB table"); rep.finish(); return 0; }
+    }
+    XRng r{seed * 7919 + 13};
+    for (long long i = 0; i < 6000000; i++) {
+        uint64_t key = r.next();
+        if (i & 1) { TranspositionTable::TTEntry e; tt.probe(key, e); }
+        else { Move mv(Square(r.below(64)), Square(r.below(64)), 0); mv.setScore(r.below(2000) - 1000); tt.insert(key, mv, 1 + r.below(3), r.below(30), r.below(60), r.below(500) - 250, false); }
+    }
+    rep.add("hash_operations", 6000000);
+    Dump d2; std::atomic<long long> np2(0), nf2(0);
+    dumpAll(m, d2, 16, [&](const Position& pos, int& score) { return tt.probeDTM(pos, 0, score); }, np2, nf2);
+    long long diff = 0; size_t first = 0;
+    for (size_t i = 0; i < d1.v.size(); i++) if (d1.v[i] != d2.v[i]) { if (!diff) first = i; diff++; }
+    rep.add("probes_tt_large", np2); rep.stat["large_table_mb"] = mb;
+    if (diff) rep.viol("table-inside-large-hash-differs", cls + " in a " + std::to_string(mb) + " MB table after 6e6 hash operations: " + std::to_string(diff) + " of " + std::to_string((long long)np2) +
+                       " probes differ from the table in private memory (first at dump index " + std::to_string(first) + ")");
+    printf("SAMPLE %s inside a %lld MB transposition table: %lld probes compared after hash traffic, %lld differ\n", cls.c_str(), mb, (long long)np2, diff);
+    rep.finish();
+    return 0;
+}
+
 // ---------------------------------------------------------------------------------------------
 // aborted generations (fault injection through the stop flag / time limit the engine itself uses)
 
-struct XRng { uint64_t s; uint64_t next() { s ^= s << 13; s ^= s >> 7; s ^= s << 17; return s * 0x2545F4914F6CDD1Dull; } int below(int n) { return (int)(next() % (uint64_t)n); } };
 
 static bool randomLegalPlacement(const Mat& m, XRng& r, int* s, bool& wtm, bool allowCaptured) {
     Mini mini;
@@ -658,6 +700,7 @@ int main(int argc, char** argv) {
     installCrumb();
     ComputerPlayer::initEngine();
     std::string mode = argv[1];
+    if (mode == "bigtt" && argc >= 5) return runBigTT(argv[2], atoll(argv[3]), strtoull(argv[4], 0, 10));
     if (mode == "solve" && argc >= 5) return runSolve(argv[2], atoi(argv[3]), argv[4]);
     if (mode == "sweep" && argc >= 4) return runSweep(argv[2], atoi(argv[3]), argc > 4 ? argv[4] : "");
     if (mode == "abort" && argc >= 6) return runAbort(argv[2], strtoull(argv[3], 0, 10), atoi(argv[4]), argv[5]);
